@@ -75,8 +75,9 @@ where
 {
     let bin_count = read_bin_count(reader)?;
 
-    let mut bins = IndexMap::with_capacity(bin_count);
-    let mut index = BinnedIndex::with_capacity(bin_count);
+    // The bin count is read from the stream and cannot be trusted for preallocation.
+    let mut bins = IndexMap::new();
+    let mut index = BinnedIndex::new();
 
     let metadata_id = Bin::metadata_id(depth);
     let mut metadata = None;
